@@ -1,6 +1,7 @@
 package rules
 
 import (
+	"go/constant"
 	"go/token"
 	"go/types"
 	"strings"
@@ -290,14 +291,14 @@ func quotedPattern(v ssa.Value) (bool, string) {
 // c14superiors (R14.6): CREATE and RENAME look at every superior of the new name.
 func c14superiors(c *Ctx) {
 	R := c.R
-	R.Explain("R14.6", "hierarchy repair is complete: the loops of State.Create and State.Rename over listSuperiors(name) test every superior (no break): deleting a mailbox with inferiors removes only that mailbox, so a missing ancestor can sit above an existing one and must still be re-created, otherwise it stays \\Noselect after CREATE of a deeper name.")
+	R.Explain("R14.6", "hierarchy repair is complete: the loops of State.Create and State.Rename (and of the helpers of the package they call) over listSuperiors(name) test every superior (no break): deleting a mailbox with inferiors removes only that mailbox, so a missing ancestor can sit above an existing one and must still be re-created, otherwise it stays \\Noselect after CREATE of a deeper name.")
 	n := 0
 	for _, name := range []string{"internal/state.(*State).Create", "internal/state.(*State).Rename"} {
 		f := c.fn("R14.6", name)
 		if f == nil {
 			continue
 		}
-		for _, g := range engine.WithClosures(f) {
+		for _, g := range c.withPackageHelpers(f, "internal/state", 2) {
 			n += c.exhaustiveLoopsOver("R14.6", g, "listSuperiors(name)", func(x ssa.Value) bool {
 				call, ok := x.(*ssa.Call)
 				return ok && call.Call.StaticCallee() != nil && engine.ShortName(call.Call.StaticCallee()) == "listSuperiors"
@@ -316,20 +317,81 @@ func c14inferiors(c *Ctx) {
 		return
 	}
 	n := 0
+	// predicates: bool closures of listInferiors and bool helpers of the package it (or a closure) calls
+	var preds []*ssa.Function
+	seenP := map[*ssa.Function]bool{f: true}
+	isPred := func(g *ssa.Function) bool {
+		return g != nil && len(g.Blocks) > 0 && g.Signature.Results().Len() == 1 && isBoolType(g.Signature.Results().At(0).Type())
+	}
 	for _, g := range engine.WithClosures(f) {
-		if g.Signature.Results().Len() != 1 || !isBoolType(g.Signature.Results().At(0).Type()) || g == f {
-			continue
+		if g != f && isPred(g) && !seenP[g] {
+			seenP[g] = true
+			preds = append(preds, g)
 		}
+		for _, cs := range engine.Calls(g) {
+			if sc := cs.Common().StaticCallee(); sc != nil && isPred(sc) && !seenP[sc] && strings.HasSuffix(engine.PkgPathOf(sc), "internal/state") {
+				seenP[sc] = true
+				preds = append(preds, sc)
+			}
+		}
+	}
+	fromSuperiors := func(v ssa.Value) bool {
+		return engine.AnyBackward(v, engine.FlowOpts{Loads: true}, func(x ssa.Value) bool {
+			call, ok := x.(*ssa.Call)
+			return ok && call.Call.StaticCallee() != nil && engine.ShortName(call.Call.StaticCallee()) == "listSuperiors"
+		})
+	}
+	elemOfSuperiors := func(v ssa.Value) bool {
+		u, ok := v.(*ssa.UnOp)
+		if !ok || u.Op != token.MUL {
+			return false
+		}
+		ia, ok := u.X.(*ssa.IndexAddr)
+		return ok && fromSuperiors(ia.X)
+	}
+	for _, g := range preds {
 		for _, ret := range engine.Returns(g) {
-			n++
 			v := engine.ResultOf(ret, 0)
+			if k, isConst := v.(*ssa.Const); isConst {
+				if k.Value == nil || k.Value.Kind() != constant.Bool || !constant.BoolVal(k.Value) {
+					continue // `return false`
+				}
+				// `return true`: only where an element of listSuperiors(name) equals the parent
+				n++
+				ok := false
+				for _, d := range g.Blocks {
+					iff := engine.IfOf(d)
+					if iff == nil {
+						continue
+					}
+					bo, isBo := iff.Cond.(*ssa.BinOp)
+					if !isBo || (bo.Op != token.EQL && bo.Op != token.NEQ) {
+						continue
+					}
+					edge := 0
+					if bo.Op == token.NEQ {
+						edge = 1
+					}
+					if !engine.EdgeDominates(d, edge, ret.Block()) && !(d.Succs[edge] == ret.Block() && len(ret.Block().Preds) == 1) {
+						continue
+					}
+					_, xParam := bo.X.(*ssa.Parameter)
+					_, yParam := bo.Y.(*ssa.Parameter)
+					if (elemOfSuperiors(bo.X) && yParam) || (elemOfSuperiors(bo.Y) && xParam) {
+						ok = true
+					}
+				}
+				R.Check(ok, "R14.7", c.name(g)+"|inferior test", P.Pos(ret.Pos()), "membership in listSuperiors(name) or prefix parent+delimiter", "listInferiors selects names by a test that is neither `parent in listSuperiors(name)` nor `HasPrefix(name, parent+delimiter)`: mailboxes that are not below the parent are renamed/deleted along with it")
+				continue
+			}
+			n++
 			ok := false
 			if call, isCall := v.(*ssa.Call); isCall && call.Call.StaticCallee() != nil {
 				sc := call.Call.StaticCallee()
 				switch {
 				case engine.BaseName(sc) == "Contains" && strings.Contains(engine.PkgPathOf(sc), "slices") && len(call.Call.Args) == 2:
 					// slices.Contains(listSuperiors(name, …), parent)
-					if inner, ok2 := call.Call.Args[0].(*ssa.Call); ok2 && inner.Call.StaticCallee() != nil && engine.ShortName(inner.Call.StaticCallee()) == "listSuperiors" {
+					if fromSuperiors(call.Call.Args[0]) {
 						ok = true
 					}
 				case engine.ShortName(sc) == "HasPrefix" && engine.PkgPathOf(sc) == "strings" && len(call.Call.Args) == 2:
@@ -342,6 +404,8 @@ func c14inferiors(c *Ctx) {
 							ok = true
 						}
 					}
+				case seenP[sc] && sc != g:
+					ok = true // delegates to another predicate that is judged itself
 				}
 			}
 			R.Check(ok, "R14.7", c.name(g)+"|inferior test", P.Pos(ret.Pos()), "membership in listSuperiors(name) or prefix parent+delimiter", "listInferiors selects names by a test that is neither `parent in listSuperiors(name)` nor `HasPrefix(name, parent+delimiter)`: mailboxes that are not below the parent are renamed/deleted along with it")
